@@ -529,4 +529,402 @@ theorem backfill_sound_aux (fixed : Bool) (maxBD : Int) (N : Nat) (input : List 
       · rw [Int.mul_add, ← hk0, Int.mul_comm d j]; exact a1
       · rw [Int.mul_add, ← hk0, Int.mul_comm d j]; exact a3
 
+/-! ### completeness invariant: a per-series increasing window is stored entirely -/
+
+/-- The samples of the window `[t, u)` in file order. -/
+def winSamples (t u : Int) : List Sample → List Smp
+  | [] => []
+  | x :: xs =>
+    match x.t with
+    | none => winSamples t u xs
+    | some ts => if t ≤ ts ∧ ts < u then (x.s, ts, x.v) :: winSamples t u xs else winSamples t u xs
+
+/-- State of the last sample of series `s` in a list of stored samples. -/
+def lastOf (s : Nat) : List Smp → Option SerSt
+  | [] => none
+  | x :: xs =>
+    match lastOf s xs with
+    | some c => some c
+    | none => if x.1 = s then some ⟨x.2.1, x.2.2⟩ else none
+
+/-- Per series strictly increasing timestamps. -/
+def Inc (l : List Smp) : Prop := l.Pairwise (fun a b => a.1 = b.1 → a.2.1 < b.2.1)
+
+theorem lastOf_append (s : Nat) (l : List Smp) (x : Smp) :
+    lastOf s (l ++ [x]) = if x.1 = s then some ⟨x.2.1, x.2.2⟩ else lastOf s l := by
+  induction l with
+  | nil => simp [lastOf]
+  | cons y ys ih =>
+    simp only [List.cons_append, lastOf, ih]
+    by_cases h : x.1 = s
+    · simp [h]
+    · simp [h]
+
+theorem lastOf_mem (s : Nat) (l : List Smp) (c : SerSt) (h : lastOf s l = some c) :
+    ∃ y ∈ l, y.1 = s ∧ y.2.1 = c.maxT := by
+  induction l with
+  | nil => simp [lastOf] at h
+  | cons y ys ih =>
+    simp only [lastOf] at h
+    cases hl : lastOf s ys with
+    | some c' =>
+      rw [hl] at h; simp only [Option.some.injEq] at h; subst h
+      obtain ⟨z, hz, a, b⟩ := ih hl
+      exact ⟨z, List.mem_cons_of_mem _ hz, a, b⟩
+    | none =>
+      rw [hl] at h; simp only at h
+      by_cases hy : y.1 = s
+      · rw [if_pos hy] at h; simp only [Option.some.injEq] at h; subst h
+        exact ⟨y, List.mem_cons_self, hy, rfl⟩
+      · rw [if_neg hy] at h; cases h
+
+theorem lookup_upsert (s s' : Nat) (c : SerSt) (l : List (Nat × SerSt)) :
+    lookup s' (upsert s c l) = if s = s' then some c else lookup s' l := by
+  induction l with
+  | nil => simp [upsert, lookup]
+  | cons y ys ih =>
+    obtain ⟨k, c'⟩ := y
+    simp only [upsert]
+    by_cases hk : k = s
+    · subst hk
+      simp only [if_true, lookup]
+      by_cases h1 : k = s' <;> simp [h1]
+    · simp only [hk, if_false, lookup, ih]
+      by_cases h1 : k = s'
+      · subst h1
+        have : ¬ s = k := fun h => hk h.symm
+        simp [this]
+      · simp [h1]
+
+/-- The series table agrees with the stored samples. -/
+def HC (h : Head) : Prop := ∀ s, lookup s h.ser = lastOf s h.stored
+
+theorem commitOne_store (mv : Int) (h : Head) (x : Smp) (hc : HC h) (hinc : Inc (h.stored ++ [x])) (hmv : x.2.1 ≥ mv) :
+    (commitOne mv h x).stored = h.stored ++ [x] ∧ HC (commitOne mv h x) := by
+  have hstore : HC { (h.updateMinMax x.2.1) with ser := upsert x.1 ⟨x.2.1, x.2.2⟩ h.ser, stored := h.stored ++ [x] } := by
+    intro s
+    simp only
+    rw [lookup_upsert, lastOf_append, hc s]
+  unfold commitOne
+  rw [hc x.1]
+  cases hl : lastOf x.1 h.stored with
+  | none =>
+    simp only [appendable, hmv, if_true]
+    exact ⟨trivial, hstore⟩
+  | some c =>
+    obtain ⟨y, hy, hy1, hy2⟩ := lastOf_mem _ _ _ hl
+    have hlt : y.2.1 < x.2.1 := by
+      have := (List.pairwise_append.mp hinc).2.2 y hy x (List.mem_singleton.mpr rfl)
+      exact this hy1
+    have h1 : x.2.1 ≥ mv ∧ x.2.1 > c.maxT := ⟨hmv, by omega⟩
+    have h2 : ¬ c.maxT ≥ x.2.1 := by omega
+    simp only [appendable, h1, and_self, if_true, h2, if_false]
+    exact ⟨trivial, hstore⟩
+
+theorem commit_all (mv : Int) (pending : List Smp) : ∀ (h : Head), HC h → Inc (h.stored ++ pending) →
+    (∀ x ∈ pending, x.2.1 ≥ mv) → (commit mv h pending).stored = h.stored ++ pending ∧ HC (commit mv h pending) := by
+  induction pending with
+  | nil => intro h hc _ _; simp [commit, hc]
+  | cons x xs ih =>
+    intro h hc hinc hmv
+    have hinc1 : Inc (h.stored ++ [x]) := by
+      have : h.stored ++ x :: xs = (h.stored ++ [x]) ++ xs := by simp
+      rw [this] at hinc
+      exact (List.pairwise_append.mp hinc).1
+    obtain ⟨e1, hc1⟩ := commitOne_store mv h x hc hinc1 (hmv x List.mem_cons_self)
+    have := ih (commitOne mv h x) hc1 (by rw [e1]; simpa using hinc) (fun y hy => hmv y (List.mem_cons_of_mem _ hy))
+    unfold commit at this ⊢
+    simp only [List.foldl_cons]
+    rw [e1] at this
+    simpa using this
+
+structure CInv (t : Int) (p : Pass) (pre : List Smp) : Prop where
+  eq : p.head.stored ++ p.pending = pre
+  hc : HC p.head
+  mv : ∀ m, p.minValid = some m → m ≤ t
+  fresh : p.minValid = none → p.head.range = none ∧ p.pending = []
+
+theorem two_mul_tdiv (d : Int) : (2 * d).tdiv 2 = d := Int.mul_tdiv_cancel_left d (by omega)
+
+theorem maxTime_lt_of_inv {P} {t u : Int} (h : Head) (hi : HInv P (fun ts => t ≤ ts ∧ ts < u) h) (x : Smp) (hx : x ∈ h.stored) :
+    h.maxTime < u := by
+  obtain ⟨lo, hi', e, _, _⟩ := hi.cover x hx
+  unfold Head.maxTime; rw [e]; exact (hi.range lo hi' e).2.2
+
+theorem appendStep_complete {P} (d : Int) (N : Nat) (t : Int) (_hd : 0 < d) (p : Pass) (pre : List Smp) (x : Smp)
+    (hc : CInv t p pre) (hp : PInv P (fun ts => t ≤ ts ∧ ts < t + d) p) (hx1 : t ≤ x.2.1) (hx2 : x.2.1 < t + d)
+    (hP : P x) (hinc : Inc (pre ++ [x])) :
+    ∃ p', appendStep d N p x = .ok p' ∧ CInv t p' (pre ++ [x]) := by
+  have key : ∀ (head : Head) (mv : Int), HC head → head.stored = p.head.stored →
+      HInv P (fun ts => t ≤ ts ∧ ts < t + d) head → mv ≤ t →
+      ∃ p', (if x.2.1 < mv then Except.error Err.oob
+       else match appendable (lookup x.1 head.ser) x.2.1 x.2.2 mv with
+        | .error e => .error e
+        | .ok () =>
+          if p.count + 1 < N then .ok { head := head, minValid := some mv, pending := p.pending ++ [x], count := p.count + 1 }
+          else .ok { head := commit mv head (p.pending ++ [x]), minValid := some ((commit mv head (p.pending ++ [x])).maxTime - (2 * d).tdiv 2), pending := [], count := 0 })
+        = Except.ok p' ∧ CInv t p' (pre ++ [x]) := by
+    intro head mv hhc hst hhi hmv
+    have h1 : ¬ x.2.1 < mv := by omega
+    rw [if_neg h1]
+    have hinc' : Inc (head.stored ++ (p.pending ++ [x])) := by
+      rw [hst, ← List.append_assoc, hc.eq]; exact hinc
+    -- the Append-time check against the committed state succeeds
+    have happ : appendable (lookup x.1 head.ser) x.2.1 x.2.2 mv = .ok () := by
+      rw [hhc x.1]
+      cases hl : lastOf x.1 head.stored with
+      | none => simp only [appendable]; rw [if_pos (by omega)]
+      | some c =>
+        obtain ⟨y, hy, hy1, hy2⟩ := lastOf_mem _ _ _ hl
+        have hlt : y.2.1 < x.2.1 := by
+          have := (List.pairwise_append.mp hinc').2.2 y hy x (by simp)
+          exact this hy1
+        simp only [appendable]; rw [if_pos ⟨by omega, by omega⟩]
+    rw [happ]
+    simp only
+    by_cases h2 : p.count + 1 < N
+    · rw [if_pos h2]
+      refine ⟨_, rfl, ?_, hhc, ?_, ?_⟩
+      · simp only; rw [hst, ← List.append_assoc, hc.eq]
+      · intro m hm; simp only [Option.some.injEq] at hm; omega
+      · intro hm; simp at hm
+    · rw [if_neg h2]
+      have hpend : ∀ y ∈ p.pending ++ [x], y.2.1 ≥ mv := by
+        intro y hy
+        simp only [List.mem_append, List.mem_singleton] at hy
+        rcases hy with hy | rfl
+        · have := (hp.pending y hy).2.1; omega
+        · omega
+      obtain ⟨e1, hc1⟩ := commit_all mv (p.pending ++ [x]) head hhc hinc' hpend
+      have hpend' : ∀ y ∈ p.pending ++ [x], P y ∧ (fun ts => t ≤ ts ∧ ts < t + d) y.2.1 := by
+        intro y hy
+        simp only [List.mem_append, List.mem_singleton] at hy
+        rcases hy with hy | rfl
+        · exact hp.pending y hy
+        · exact ⟨hP, hx1, hx2⟩
+      have hi1 := commit_inv mv (p.pending ++ [x]) head hhi hpend'
+      have hmem : x ∈ (commit mv head (p.pending ++ [x])).stored := by rw [e1]; simp
+      have hmax := maxTime_lt_of_inv _ hi1 x hmem
+      refine ⟨_, rfl, ?_, hc1, ?_, ?_⟩
+      · simp only; rw [e1, hst, List.append_nil, ← List.append_assoc, hc.eq]
+      · intro m hm; simp only [Option.some.injEq] at hm; rw [two_mul_tdiv] at hm; omega
+      · intro hm; simp at hm
+  unfold appendStep
+  cases hmv : p.minValid with
+  | some m => exact key _ _ hc.hc rfl hp.head (hc.mv m hmv)
+  | none =>
+    obtain ⟨hr, _⟩ := hc.fresh hmv
+    have hmt : (p.head.initTime x.2.1).maxTime = x.2.1 := by
+      unfold Head.initTime Head.maxTime; rw [hr]
+    have hle : (p.head.initTime x.2.1).maxTime - (2 * d).tdiv 2 ≤ t := by rw [hmt, two_mul_tdiv]; omega
+    refine key _ _ ?_ ?_ (initTime_inv _ _ hp.head ⟨hx1, hx2⟩) hle
+    · intro s; unfold Head.initTime; rw [hr]; exact hc.hc s
+    · unfold Head.initTime; rw [hr]
+
+theorem passLoop_complete (input : List Sample) (d : Int) (N : Nat) (t : Int) (hd : 0 < d) (xs : List Sample) :
+    ∀ (p : Pass) (n : Int) (pre : List Smp), AllTimed xs → (∀ y ∈ xs, y ∈ input) → CInv t p pre →
+    PInv (InWin input t (t + d)) (fun ts => t ≤ ts ∧ ts < t + d) p →
+    Inc (pre ++ winSamples t (t + d) xs) →
+    ∃ p' n', passLoop d N t (t + d) xs p n = .ok (p', n') ∧ CInv t p' (pre ++ winSamples t (t + d) xs) ∧
+      PInv (InWin input t (t + d)) (fun ts => t ≤ ts ∧ ts < t + d) p' := by
+  induction xs with
+  | nil => intro p n pre _ _ hc hp _; exact ⟨p, n, rfl, by simpa [winSamples] using hc, hp⟩
+  | cons y ys ih =>
+    intro p n pre hall hin hc hp hinc
+    have hall' : AllTimed ys := fun z hz => hall z (List.mem_cons_of_mem _ hz)
+    have hin' : ∀ z ∈ ys, z ∈ input := fun z hz => hin z (List.mem_cons_of_mem _ hz)
+    unfold passLoop
+    cases hy : y.t with
+    | none => exact absurd hy (hall y List.mem_cons_self)
+    | some ts =>
+      simp only
+      have hw : winSamples t (t + d) (y :: ys) =
+          if t ≤ ts ∧ ts < t + d then (y.s, ts, y.v) :: winSamples t (t + d) ys else winSamples t (t + d) ys := by
+        simp only [winSamples, hy]
+      rw [hw] at hinc ⊢
+      by_cases h1 : ts < t
+      · have hn : ¬ (t ≤ ts ∧ ts < t + d) := by omega
+        rw [if_pos h1]; rw [if_neg hn] at hinc ⊢
+        exact ih p n pre hall' hin' hc hp hinc
+      · rw [if_neg h1]
+        by_cases h2 : ts ≥ t + d
+        · have hn : ¬ (t ≤ ts ∧ ts < t + d) := by omega
+          rw [if_pos h2]; rw [if_neg hn] at hinc ⊢
+          exact ih p _ pre hall' hin' hc hp hinc
+        · have hy' : t ≤ ts ∧ ts < t + d := by omega
+          rw [if_neg h2]; rw [if_pos hy'] at hinc ⊢
+          have hmem : (⟨y.s, some ts, y.v⟩ : Sample) ∈ input := by
+            have := hin y List.mem_cons_self
+            rw [← hy]; exact this
+          have hP : InWin input t (t + d) (y.s, ts, y.v) := ⟨hmem, hy'.1, hy'.2⟩
+          have hinc1 : Inc (pre ++ [(y.s, ts, y.v)]) := by
+            have : pre ++ (y.s, ts, y.v) :: winSamples t (t + d) ys = (pre ++ [(y.s, ts, y.v)]) ++ winSamples t (t + d) ys := by simp
+            rw [this] at hinc
+            exact (List.pairwise_append.mp hinc).1
+          obtain ⟨p1, ha, hc1⟩ := appendStep_complete d N t hd p pre (y.s, ts, y.v) hc hp hy'.1 hy'.2 hP hinc1
+          rw [ha]
+          simp only
+          have hp1 := appendStep_inv d N p p1 _ hp hP hy' ha
+          have := ih p1 n (pre ++ [(y.s, ts, y.v)]) hall' hin' hc1 hp1 (by simpa using hinc)
+          simpa using this
+
+theorem empty_cinv (t : Int) : CInv t ({} : Pass) [] :=
+  ⟨rfl, (by intro s; rfl), (by intro m h; cases h), (by intro _; exact ⟨rfl, rfl⟩)⟩
+
+/-- One window pass stores exactly the window's samples, in file order, when every series is strictly
+    increasing inside the window. -/
+theorem windowPass_complete (input : List Sample) (d : Int) (N : Nat) (t : Int) (hd : 0 < d) (hall : AllTimed input)
+    (hinc : Inc (winSamples t (t + d) input)) :
+    ∃ ob n, windowPass d N t input = .ok (ob, n) ∧
+      (winSamples t (t + d) input = [] → ob = none) ∧
+      (winSamples t (t + d) input ≠ [] → ∃ b, ob = some b ∧ b.samples = winSamples t (t + d) input) := by
+  obtain ⟨p', n', hp, hc, hpi⟩ := passLoop_complete input d N t hd input {} maxI64 [] hall (fun y hy => hy)
+    (empty_cinv t) empty_pass_inv (by simpa using hinc)
+  simp only [List.nil_append] at hc
+  refine ⟨flush p', n', by unfold windowPass; rw [hp], ?_, ?_⟩
+  all_goals
+    unfold flush
+    cases hm : p'.minValid with
+    | none =>
+      obtain ⟨hr, hpe⟩ := hc.fresh hm
+      simp only [hr]
+      first
+        | intro _; trivial
+        | intro hne
+          exfalso; apply hne
+          rw [← hc.eq, hpe, List.append_nil]
+          cases hs : p'.head.stored with
+          | nil => rfl
+          | cons z zs =>
+            obtain ⟨lo, hi, e, _⟩ := hpi.head.cover z (by rw [hs]; exact List.mem_cons_self)
+            rw [hr] at e; cases e
+    | some m =>
+      simp only
+      have hpend : ∀ y ∈ p'.pending, y.2.1 ≥ m := by
+        intro y hy; have := (hpi.pending y hy).2.1; have := hc.mv m hm; omega
+      obtain ⟨e1, _⟩ := commit_all m p'.pending p'.head hc.hc (by rw [hc.eq]; exact hinc) hpend
+      rw [hc.eq] at e1
+      have hi1 := commit_inv m p'.pending p'.head hpi.head hpi.pending
+      first
+        | intro hnil
+          rw [hnil] at e1
+          cases (commit m p'.head p'.pending).range with
+          | none => rfl
+          | some r => simp [e1]
+        | intro hne
+          obtain ⟨z, hz⟩ := List.exists_mem_of_ne_nil _ hne
+          obtain ⟨lo, hi, e, _⟩ := hi1.cover z (by rw [e1]; exact hz)
+          rw [e]
+          simp only
+          have : ¬ (commit m p'.head p'.pending).stored.isEmpty = true := by rw [e1]; simpa using hne
+          rw [if_neg this]
+          exact ⟨_, rfl, e1⟩
+
+theorem mem_winSamples (t u : Int) (xs : List Sample) (x : Sample) (hx : x ∈ xs) (tx : Int) (ht : x.t = some tx)
+    (h1 : t ≤ tx) (h2 : tx < u) : (x.s, tx, x.v) ∈ winSamples t u xs := by
+  induction xs with
+  | nil => cases hx
+  | cons y ys ih =>
+    unfold winSamples
+    rcases List.mem_cons.mp hx with rfl | hmem
+    · rw [ht]; simp only; rw [if_pos ⟨h1, h2⟩]; exact List.mem_cons_self
+    · cases y.t with
+      | none => exact ih hmem
+      | some ts =>
+        simp only
+        split
+        · exact List.mem_cons_of_mem _ (ih hmem)
+        · exact ih hmem
+
+theorem minMaxLoop_bounds (xs : List Sample) : ∀ (a b M m : Int), minMaxLoop xs a b = .ok (M, m) →
+    a ≤ M ∧ m ≤ b ∧ ∀ x ∈ xs, ∀ ts, x.t = some ts → m ≤ ts ∧ ts ≤ M := by
+  induction xs with
+  | nil =>
+    intro a b M m h
+    simp only [minMaxLoop, Except.ok.injEq, Prod.mk.injEq] at h
+    exact ⟨by omega, by omega, by intro x hx; cases hx⟩
+  | cons y ys ih =>
+    intro a b M m h
+    unfold minMaxLoop at h
+    cases hy : y.t with
+    | none => rw [hy] at h; cases h
+    | some ts =>
+      rw [hy] at h
+      simp only at h
+      obtain ⟨h1, h2, h3⟩ := ih _ _ _ _ h
+      have ha : a ≤ (if ts > a then ts else a) ∧ ts ≤ (if ts > a then ts else a) := by split <;> omega
+      have hb : (if ts < b then ts else b) ≤ b ∧ (if ts < b then ts else b) ≤ ts := by split <;> omega
+      refine ⟨by omega, by omega, ?_⟩
+      intro x hx tx htx
+      rcases List.mem_cons.mp hx with rfl | hmem
+      · rw [hy] at htx; cases htx; omega
+      · exact h3 x hmem tx htx
+
+theorem minMaxLoop_ok (xs : List Sample) (hall : AllTimed xs) : ∀ (a b : Int), ∃ M m, minMaxLoop xs a b = .ok (M, m) := by
+  induction xs with
+  | nil => intro a b; exact ⟨a, b, rfl⟩
+  | cons y ys ih =>
+    intro a b
+    unfold minMaxLoop
+    cases hy : y.t with
+    | none => exact absurd hy (hall y List.mem_cons_self)
+    | some ts => exact ih (fun z hz => hall z (List.mem_cons_of_mem _ hz)) _ _
+
+theorem getMinMax_bounds (xs : List Sample) (hall : AllTimed xs)
+    (hb : ∀ x ∈ xs, ∀ ts, x.t = some ts → minI64 < ts ∧ ts < maxI64) :
+    ∃ maxt mint, getMinAndMaxTimestamps xs = .ok (maxt, mint) ∧ ∀ x ∈ xs, ∀ ts, x.t = some ts → mint ≤ ts ∧ ts ≤ maxt := by
+  obtain ⟨M, m, h⟩ := minMaxLoop_ok xs hall minI64 maxI64
+  obtain ⟨h1, h2, h3⟩ := minMaxLoop_bounds xs _ _ _ _ h
+  unfold getMinAndMaxTimestamps
+  rw [h]
+  refine ⟨_, _, rfl, ?_⟩
+  intro x hx ts hts
+  obtain ⟨a, b⟩ := h3 x hx ts hts
+  obtain ⟨c, e⟩ := hb x hx ts hts
+  have hM : ¬ M = minI64 := by omega
+  have hm : ¬ m = maxI64 := by omega
+  rw [if_neg hM, if_neg hm]
+  exact ⟨a, b⟩
+
+theorem blockLoop_noskip_complete (input : List Sample) (d : Int) (N : Nat) (maxt s0 : Int) (hd : 0 < d)
+    (hok : ∀ j : Nat, ∃ ob n, windowPass d N (s0 + j * d) input = .ok (ob, n)) (fuel : Nat) :
+    ∀ (j : Nat) (next : Int) (acc : List Block),
+      (blockLoop false d N maxt input fuel (s0 + j * d) next acc).1 = none ∧
+      (∀ b ∈ acc, b ∈ (blockLoop false d N maxt input fuel (s0 + j * d) next acc).2) ∧
+      ∀ j' : Nat, j ≤ j' → j' < j + fuel → s0 + j' * d ≤ maxt → ∀ b n,
+        windowPass d N (s0 + j' * d) input = .ok (some b, n) →
+        b ∈ (blockLoop false d N maxt input fuel (s0 + j * d) next acc).2 := by
+  induction fuel with
+  | zero =>
+    intro j next acc
+    refine ⟨rfl, fun b hb => hb, ?_⟩
+    intro j' h1 h2; omega
+  | succ f ih =>
+    intro j next acc
+    have hnext : s0 + (j : Int) * d + d = s0 + ((j + 1 : Nat) : Int) * d := by
+      rw [Int.natCast_add, Int.add_mul]; simp; omega
+    unfold blockLoop
+    by_cases h1 : s0 + (j : Int) * d > maxt
+    · rw [if_pos h1]
+      refine ⟨rfl, fun b hb => hb, ?_⟩
+      intro j' hj _ hle
+      have : (j : Int) * d ≤ (j' : Int) * d := Int.mul_le_mul_of_nonneg_right (by omega) (by omega)
+      omega
+    · rw [if_neg h1]
+      rw [if_neg (by simp : ¬ ((false : Bool) = true ∧ next ≠ maxI64 ∧ next ≥ s0 + (j : Int) * d + d))]
+      obtain ⟨ob, n', hw⟩ := hok j
+      rw [hw]
+      simp only
+      rw [hnext]
+      obtain ⟨i1, i2, i3⟩ := ih (j + 1) n' (acc ++ ob.toList)
+      refine ⟨i1, fun b hb => i2 b (List.mem_append_left _ hb), ?_⟩
+      intro j' hj hlt hle b n hwb
+      by_cases hjj : j' = j
+      · subst hjj
+        rw [hw] at hwb
+        simp only [Except.ok.injEq, Prod.mk.injEq] at hwb
+        apply i2
+        rw [hwb.1]; simp
+      · exact i3 j' (by omega) (by omega) hle b n hwb
+
 end Prom.Backfill
